@@ -156,11 +156,14 @@ func ruleFilterKeys(c *core.Ctx) {
 	for _, p := range pairs {
 		p := p
 		c.Check(rule, "pdf."+p.name, "the DecodeParms keys written for the filter are exactly the keys its parser reads", func(o *core.Ob) {
+			// key sets are compared per declared function (the LZW pair
+			// delegates the predictor keys to the Flate pair on both sides)
 			wr := c.Prog.FuncOpt("pdf", p.write)
 			if wr == nil {
 				wr = c.Prog.Func("pdf", strings.Replace(p.write, ".toDict", ".Info", 1))
 			}
-			rd := c.Prog.Func("pdf", p.read)
+			wr = c.Prog.RawFunc("pdf", strings.TrimPrefix(wr.Key, "pdf."))
+			rd := c.Prog.RawFunc("pdf", p.read)
 			wk := map[string]bool{}
 			for k := range core.DictKeysWritten(wr.Info(), wr.Decl, "pdf", "Dict") {
 				wk[k] = true
